@@ -13,6 +13,7 @@ Correspondence: every scenario calls the real estimator (overlay build of /repo'
                                     and verified there before use); graphs in which every node reaches a seed
   spec line `c14.spec_nonexp`    -> one more round never increases the sup-distance to the harmonic extension
   spec line `c14.spec_forms`     -> the same temperatures as ndarray, list and dict give the same output
+  spec line `c14.spec_scale`     -> all weights multiplied by c (1e-9, 1e-12, 1e+12, 2^-30 …): same outputs
   run/spec `c14.normalize`, `c14.spec_stochastic` -> `normalize(matrix)` itself: stored entries, rows of L1 norm 1 or null
 Theorems (SkNet/Properties/C14.lean) are about the same model for every graph and every number of rounds.
 """
@@ -37,9 +38,10 @@ RUN_TOL = Fraction(1, 10 ** 11)       # run lines: |model - impl| <= RUN_TOL * (
 SPEC_TOL = Fraction(1, 10 ** 12)      # bounds of the maximum principle on float64 outputs: SPEC_TOL * (1 + |x|)
 STOCH_TOL = Fraction(1, 10 ** 12)     # | L1 norm of a normalised row - 1 |
 NONEXP_TOL = Fraction(1, 10 ** 12)    # non-expansiveness: d(k+1) <= d(k) + NONEXP_TOL * (1 + scale)
+SCALE_TOL = Fraction(1, 10 ** 12)     # values(c*A) vs values(A) on the implementation: SCALE_TOL * (1 + scale)
 HARMONIC_TOL = Fraction(1, 10 ** 10)  # distance to the harmonic extension after "many" rounds, times (1 + scale)
 TOLERANCES = {'RUN_TOL': '1e-11*(1+scale)', 'SPEC_TOL': '1e-12*(1+|x|)', 'STOCH_TOL': '1e-12',
-              'NONEXP_TOL': '1e-12*(1+scale)', 'HARMONIC_TOL': '1e-10*(1+scale)',
+              'NONEXP_TOL': '1e-12*(1+scale)', 'SCALE_TOL': '1e-12*(1+scale)', 'HARMONIC_TOL': '1e-10*(1+scale)',
               'observation': 'float64 outputs leave [min seed, max seed] by a few ulps on the unchanged code '
                              '(Diffusion(20, 0.85) on K7 with seeds {0: 0.1, 1: 0.1}: every value is 0.1 - 4.2e-17); the '
                              'exact statement is proved over Q, the float outputs are checked with slack SPEC_TOL'}
@@ -56,7 +58,9 @@ RULE = ('graphs x seed sets x estimator exhaustive for digraphs n<=3 (loops n<=2
         '(quick: some 100; thorough: 100 and 300 on small graphs) and 64 / 65 / 100 / 300 on slow-mixing lazy chains; damping in [0,1] and outside; refit of an already fitted '
         'estimator object; degenerate stream (no seeds, empty dict, bad lengths, bad keys, n_iter<=0, empty matrix, all-zero '
         'dense matrix, sinks, explicit zeros, negative weights); normalize(matrix) itself on every distinct matrix and on '
-        'signed matrices with explicit zeros; harmonic limit on undirected connected graphs (self-loops kept) and on '
+        'signed matrices with explicit zeros; scale invariance: the same calls with all weights multiplied by 2^-30, 2^-40, 2^40, '
+        '1e-9, 1e-12, 1e+12, 3e-10 (run + bounds lines and the metamorphic line values(cA) = values(A)), graphs with one node '
+        'attached by edges of weight 3e-10 … 1e-7 next to weights of order 1; harmonic limit (also on rescaled graphs) on undirected connected graphs (self-loops kept) and on '
         'digraphs in which every node reaches a seed, n<=8. A case is non-trivial when the estimator returned values, some '
         'node is not a seed and two initial temperatures differ; distinct = distinct (estimator, matrix, arguments)')
 ASSUMPTIONS = [
@@ -836,6 +840,64 @@ def narrow_duplicates(rng):
     return out
 
 
+SCALES = [2.0 ** -30, 2.0 ** -40, 2.0 ** 40, 1e-9, 1e-12, 1e12, 1e-9, 3e-10]
+
+
+def has_duplicates(sc):
+    ip, ix = sc['indptr'], sc['indices']
+    return any(len(set(ix[ip[i]:ip[i + 1]])) != ip[i + 1] - ip[i] for i in range(len(ip) - 1))
+
+
+def scaled_scenario(sc, c):
+    """the same call on the graph with every weight multiplied by c (float64 storage, same sparsity pattern)"""
+    sc2 = dict(sc)
+    # (scipy's astype would sum duplicate entries: the storage is kept as it is, only the numbers change)
+    sc2.update({'data': [float(np.float64(x) * np.float64(c)) for x in sc['data']], 'dtype': 'float64', 'scale_of': c})
+    return sc2
+
+
+def scale_case(sc, sc2):
+    """metamorphic line on the implementation: values(c*A) = values(A)"""
+    r1, r2 = run_impl(sc), run_impl(sc2)
+    if r1[0] != 'ok' or r2[0] != 'ok':
+        if r1[:2] == r2[:2]:
+            return []
+        # one of the two graphs is refused / non-finite: a run line for the scaled call settles which
+        return [Case(_key('fit', sc2), sig_of(sc2, 'scale-invariance'), run_line(sc2), enc_out(r2), None, True,
+                     {'kind': 'fit', 'scenario': sc2}, tol=RUN_TOL * (1 + scale_of(sc2)))]
+    ctx_count('spec:scale-invariance')
+    spec = 'c14.spec_scale %s %s %s' % (enc_rat(SCALE_TOL * (1 + scale_of(sc))), enc_out(r1)[3:], enc_out(r2)[3:])
+    return [Case(_key('scale', sc2), sig_of(sc2, 'scale-invariance'), None, enc_out(r2), spec, True,
+                 {'kind': 'scale', 'scenario': sc2, 'unscaled': sc})]
+
+
+def weak_attach_scenarios(rng, ctx=None):
+    """a graph with weights of order 1 plus one node attached by edges of weight 1e-9 … 1e-7: its total weight is tiny,
+    its row of the transition matrix is not null"""
+    out = []
+    n0 = rng.randint(2, 7)
+    es = graphs.structured(rng, rng.choice(['path', 'cycle', 'star', 'clique', 'random_undirected', 'dicycle', 'random_directed']), n0)
+    es = [e for e in es if e[0] != e[1]]
+    if not es:
+        return out
+    w = weights_for(rng, es, rng.choice(['ones', 'int', 'dyadic']))
+    eps = rng.choice([2e-9, 1e-9, 2.0 ** -30, 5e-8, 1e-7, 3e-10, 9e-9])
+    nb = rng.sample(range(n0), min(n0, rng.choice([1, 2])))
+    es2, w2 = list(es), list(w)
+    for j in nb:
+        es2 += [(n0, j), (j, n0)]
+        w2 += [eps, eps * rng.choice([1, 1, 2])]
+    a = mk_matrix(n0 + 1, n0 + 1, es2, w2)
+    nodes = sorted(rng.sample(range(n0), rng.randint(1, n0)))
+    seeds = pick_temps(rng, nodes, 'positive')
+    for algo in ('diffusion', 'dirichlet'):
+        out.append(scenario(algo, a, values=make_form(rng.choice(['arr', 'list', 'dict']), n0 + 1, seeds),
+                            n_iter=rng.choice([1, 2, 3, 10]), alpha=rng.choice(ALPHAS) if algo == 'diffusion' else 0.5))
+    if ctx is not None:
+        ctx.count('weakly-attached-node')
+    return out
+
+
 def is_connected_undirected(n, es):
     adj = {i: set() for i in range(n)}
     for i, j in es:
@@ -982,8 +1044,21 @@ def build_cases(ctx):
     deg = degenerate_scenarios(rng)
     ctx.count('degenerate', len(deg))
     scs += deg
+    # 5a. weakly attached nodes; the same calls on rescaled graphs (scale invariance of the transition matrix)
+    for _ in range(40 if quick else 400):
+        scs += weak_attach_scenarios(rng, ctx)
+    pool = [sc for sc in scs if sc['data'] and sc['n_iter'] <= 30 and abstract_seeds(sc)
+            and (np.dtype(_LEGACY_DTYPE.get(sc['dtype'], sc['dtype'])).kind == 'f' or not has_duplicates(sc))]
+    scaled = []
+    for sc in rng.sample(pool, min(len(pool), 160 if quick else 1600)):
+        sc2 = scaled_scenario(sc, rng.choice(SCALES))
+        scaled.append((sc, sc2))
+        ctx.count('scaled:%g' % sc2['scale_of'])
+    scs += [sc2 for _, sc2 in scaled]
     for sc in scs:
         cases += cases_of_scenario(sc)
+    for sc, sc2 in scaled:
+        cases += scale_case(sc, sc2)
     # 5b. `normalize` observed directly on the matrices above (each distinct matrix once) and on signed / zero data
     seen = set()
     for sc in scs:
@@ -1051,6 +1126,9 @@ def harmonic_suite(ctx, rng, quick, small_only=False):
         nodes = sorted(rng.sample(range(n), rng.randint(1, max(1, n - 1))))
         seeds = pick_temps(rng, nodes)
         sc = scenario('dirichlet', a, values=make_form(rng.choice(['arr', 'list', 'dict']), n, seeds), init=pick_init(rng, seeds))
+        if not small_only and rng.random() < 0.3:
+            sc = scaled_scenario(sc, rng.choice(SCALES))        # the harmonic limit does not depend on the scale
+            ctx.count('harmonic:scaled')
         cases += harmonic_cases(sc, rng)
         ctx.count('harmonic:n=%d' % n + (':selfloop' if any(i == j for i, j in es) else ''))
     # directed graphs in which every node reaches a seed (`harmonic_unique_of_reach` covers them)
@@ -1108,6 +1186,8 @@ def cases_of_desc(desc, rng):
     if kind == 'forms':
         sbs = {k: (v[0], {int(a): b for a, b in v[1]}) for k, v in desc['seeds_by_side'].items()}
         return [forms_case(sc, sbs)]
+    if kind == 'scale':
+        return cases_of_scenario(sc) + scale_case(_norm_sc(desc['unscaled']), sc)
     if kind == 'nonexp':
         return harmonic_cases(sc, rng, k=sc['n_iter'], only='nonexp')
     if kind == 'harmonic':
